@@ -4,8 +4,14 @@ from ir import last_seg
 import analysis as A
 
 LIB = ("mdk_core", "mdk_memory_storage", "mdk_sqlite_storage", "mdk_storage_traits", "mdk_uniffi", "mdk_verif_witness")
+# (the OpenMLS extension containers hold the raw Marmot group-data extension: Nostr group id, image key / nonce / seed)
 ID_TYPES = re.compile(r"(mdk_storage_traits::group_id::GroupId|openmls::group::GroupId|mdk_storage_traits::secret::Secret<|"
-                      r"mdk_sqlite_storage::encryption::EncryptionConfig|mdk_storage_traits::groups::types::GroupExporterSecret)")
+                      r"mdk_sqlite_storage::encryption::EncryptionConfig|mdk_storage_traits::groups::types::GroupExporterSecret|"
+                      r"openmls::extensions::Extensions|openmls::extensions::Extension\b|openmls::extensions::UnknownExtension|"
+                      r"openmls::messages::proposals::GroupContextExtensionProposal)")
+EXTERNAL_LEAKY = ("openmls::extensions::Extensions", "openmls::extensions::Extension", "openmls::extensions::UnknownExtension",
+                  "openmls::messages::proposals::GroupContextExtensionProposal", "openmls::group::group_context::GroupContext",
+                  "openmls::messages::proposals::Proposal")
 SENSITIVE_FIELDS = {"nostr_group_id", "secret", "image_key", "image_nonce", "image_upload_key", "mls_group_id", "group_id"}
 # fields that are sensitive only on a given struct: (adt last segment, field)
 SENSITIVE_ON = {("EncryptionConfig", "key"), ("EpochSnapshot", "snapshot_name")}
@@ -34,7 +40,7 @@ def leaky_debug_adts(prog):
         if last_seg(im.get("trait")) == "Debug" and im.get("derived") and im.get("self_adt"):
             derived.add(im["self_adt"])
     # a signed kind-445 wrapper event carries the hex Nostr group id in its h tag
-    leaky = {"mdk_storage_traits::group_id::GroupId", "openmls::group::GroupId", "nostr::event::Event"}
+    leaky = {"mdk_storage_traits::group_id::GroupId", "openmls::group::GroupId", "nostr::event::Event"} | set(EXTERNAL_LEAKY)
     changed = True
     while changed:
         changed = False
